@@ -8,7 +8,7 @@ keys whose leading fields match."
 
 Property theorems only; helper lemmas live in `Gsu/Proofs/Ixkey.lean`.
 -/
-import Gsu.Proofs.Ixkey
+import Gsu.Proofs.Ixkey11
 import Gsu.Gen.Ixkey
 namespace Gsu.Props.C12
 open Gsu.Proto Gsu.Ixkey
@@ -22,6 +22,158 @@ theorem enc_cmp (a b sa sb : Bytes) (ha : IsTail sa) (hb : IsTail sb) :
 
 -- non-vacuity: the hypotheses are met by a real two-field key
 example : IsTail ([] : Bytes) ∧ IsTail (0 :: 0 :: enc [7]) := ⟨Or.inl rfl, Or.inr ⟨_, rfl⟩⟩
+
+/-- An encoded field never contains the separator (two adjacent zero bytes) … -/
+theorem encode_no_sep (a : Bytes) : ∀ p s : Bytes, enc a ≠ p ++ 0 :: 0 :: s :=
+  Gsu.Ixkey.enc_no_sep a
+
+/-- … and never ends in a zero byte (so field ++ separator cannot create an earlier separator). -/
+theorem encode_no_trailing_zero (a : Bytes) : ∀ p : Bytes, enc a ≠ p ++ [0] :=
+  Gsu.Ixkey.enc_not_end_zero a
+
+-- the raw value may well contain separators; its encoding does not
+example : enc [5, 0, 0, 0] = [5, 0, 1, 0, 1, 0, 1] := by decide
+
+/-- un-escaping an escaped field gives the field back -/
+theorem unenc_enc (a : Bytes) : unenc (enc a) = a := Gsu.Ixkey.unenc_enc a
+
+/-- splitting a joined key at separators yields exactly the encoded fields -/
+theorem splitSep_joinEnc (vs : List Bytes) (h : vs ≠ []) : splitSep (joinEnc vs) = vs.map enc :=
+  Gsu.Ixkey.splitSep_joinEnc h
+
+example : ([[0, 0], [], [1, 0]] : List Bytes) ≠ [] := by decide
+
+/-- Decoding a key recovers its fields. `joinEnc [[]] = [] = joinEnc []` is the only ambiguity
+(a key made of one empty field is the empty key). -/
+theorem decode_key (vs : List Bytes) (h : vs ≠ [[]]) : decode (joinEnc vs) = vs :=
+  Gsu.Ixkey.decode_joinEnc h
+
+example : ([[0, 0], [], [1, 0]] : List Bytes) ≠ [[]] := by decide
+
+/-- Decoding the key a multi-field spec builds for a record gives the record's indexed fields with
+trailing empty ones dropped. -/
+theorem decode_key_spec (fields : List Nat) (rec : List Bytes) (h : fields.length > 1) :
+    decode (key fields [] rec) = trimEmpty (fields.map (getRaw rec)) :=
+  Gsu.Ixkey.decode_key_spec fields rec h
+
+example : ([2, 0, 1] : List Nat).length > 1 := by decide
+
+/-- Headline: comparing the encoded keys of two records byte-wise is comparing their indexed
+fields in order (`Spec.Compare`), for every spec shape: single field (no encoding), several
+fields (escaped, joined, trailing empties trimmed), and Fields2 (unique-index fallback when all
+Fields are empty).
+
+The hypothesis excludes `Fields = []` with `Fields2 ≠ []`: there Go's `Key` returns "" while
+`Compare` looks at Fields2; such a spec is never built (Fields2 only exists alongside Fields). -/
+theorem key_cmp (fields fields2 : List Nat) (r1 r2 : List Bytes) (h : fields ≠ [] ∨ fields2 = []) :
+    cmpB (key fields fields2 r1) (key fields fields2 r2) = compare fields fields2 r1 r2 :=
+  Gsu.Ixkey.key_cmp fields fields2 r1 r2 h
+
+example : ([1, 0] : List Nat) ≠ [] ∨ ([2] : List Nat) = [] := by decide
+
+/-- Distinct field tuples give distinct keys (both tuples are read through the same spec, hence
+have equal arity); the Fields2 values are part of the key exactly when all Fields are empty. -/
+theorem key_injective (fields fields2 : List Nat) (r1 r2 : List Bytes)
+    (hk : key fields fields2 r1 = key fields fields2 r2) (h : fields ≠ [] ∨ fields2 = []) :
+    fields.map (getRaw r1) = fields.map (getRaw r2) ∧
+      ((fields.map (getRaw r1)).all (· = []) = true →
+        fields2.map (getRaw r1) = fields2.map (getRaw r2)) :=
+  Gsu.Ixkey.key_injective fields fields2 r1 r2 hk h
+
+example : key [1, 0] [2] [[], [], [7]] = key [1, 0] [2] [[], [], [7], [9]] ∧
+    (([1, 0] : List Nat) ≠ [] ∨ ([2] : List Nat) = []) := by decide
+
+/-- List-level form: trimmed joined keys of equal-arity tuples are equal only for equal tuples. -/
+theorem joinTrim_injective (a b : List Bytes) (hl : a.length = b.length)
+    (h : joinEnc (trimEmpty a) = joinEnc (trimEmpty b)) : a = b :=
+  Gsu.Ixkey.joinTrim_inj a b hl h
+
+example : ([[1], [], []] : List Bytes).length = ([[1], [], []] : List Bytes).length ∧
+    joinEnc (trimEmpty [[1], [], []]) = joinEnc (trimEmpty ([[1], [], []] : List Bytes)) := by decide
+
+/-- `HasPrefix` on raw strings: `s` is `p` itself or `p` followed by a separator. -/
+theorem hasPrefix_raw (s p : Bytes) :
+    hasPrefix s p = true ↔ s = p ∨ ∃ r, s = p ++ 0 :: 0 :: r :=
+  Gsu.Ixkey.hasPrefix_iff_raw s p
+
+/-- `HasPrefix` selects exactly the keys whose leading fields are the fields of the prefix key. -/
+theorem hasPrefix_iff (vs ps : List Bytes) (hv : vs ≠ []) (hp : ps ≠ []) :
+    hasPrefix (joinEnc vs) (joinEnc ps) = true ↔ ps <+: vs :=
+  Gsu.Ixkey.hasPrefix_iff vs ps hv hp
+
+example : ([[1, 0], [], [3]] : List Bytes) ≠ [] ∧ ([[1, 0], []] : List Bytes) ≠ [] ∧
+    hasPrefix (joinEnc [[1, 0], [], [3]]) (joinEnc [[1, 0], []]) = true := by decide
+
+/-- degenerate: the empty prefix key matches the empty key and keys whose first field is empty -/
+theorem hasPrefix_nil (s : Bytes) : hasPrefix s [] = true ↔ s = [] ∨ ∃ r, s = 0 :: 0 :: r :=
+  Gsu.Ixkey.hasPrefix_nil s
+
+example : hasPrefix [0, 0, 5] [] = true ∧ hasPrefix [5] [] = false := by decide
+
+/-- `SplitPrefixSuffix` of a key with more than `n` fields: the prefix is the first `n` fields with
+trailing empty ones (and their separators) stripped, the suffix is the remaining fields. -/
+theorem splitPS_joinEnc (vs : List Bytes) (n : Nat) (hn : 1 ≤ n) (hl : n < vs.length) :
+    splitPS (joinEnc vs) n = (joinEnc (trimEmpty (vs.take n)), joinEnc (vs.drop n)) :=
+  Gsu.Ixkey.splitPS_joinEnc vs n hn hl
+
+/-- `JoinPrefixSuffix` is the inverse of `SplitPrefixSuffix` whenever the key has more than `n`
+fields (and its precondition `countSep p < n` holds for the prefix produced by the split). -/
+theorem splitPS_joinPS (vs : List Bytes) (n : Nat) (hn : 1 ≤ n) (hl : n < vs.length) :
+    let (p, s) := splitPS (joinEnc vs) n
+    countSep p < n ∧ joinPS p n s = joinEnc vs ∧ s = joinEnc (vs.drop n) :=
+  Gsu.Ixkey.splitPS_joinPS vs n hn hl
+
+example : 1 ≤ 2 ∧ 2 < ([[1, 0], [], [], [0, 3]] : List Bytes).length ∧
+    splitPS (joinEnc [[1, 0], [], [], [0, 3]]) 2 = ([1, 0, 1], [0, 0, 0, 1, 3]) := by decide
+
+/-- `rangeEnd` of the (trimmed) key of an `n`-field prefix tuple `P` is the key of `P` followed by
+one more field equal to Max: missing separators are padded before Max is appended. -/
+theorem rangeEnd_value (P : List Bytes) (n : Nat) (hn : 1 ≤ n) (hP : P.length = n) :
+    rangeEnd (joinEnc (trimEmpty P)) n = joinEnc (P ++ [maxKey]) :=
+  Gsu.Ixkey.rangeEnd_joinTrim P n hn hP
+
+example : rangeEnd (joinEnc (trimEmpty [[1], []])) 2 = [1, 0, 0, 0, 0] ++ maxKey := by decide
+
+/-- The range `[pk, rangeEnd pk n]` selects exactly the keys whose first `n` fields are the prefix
+tuple `P`. Here `pk = joinEnc (trimEmpty P)` is the prefix key as `Spec.Key` builds it (trailing
+empty fields trimmed; for `P` without trailing empties this is `joinEnc P`), `k` is the key of a
+tuple `V` with more than `n` fields, and `hmax` says the first field after the prefix sorts strictly
+below Max (always true of packed values, whose first byte is a tag below 0xff).
+
+With an *untrimmed* prefix key the statement would be false: for `P = [[1], []]`,
+`V = [[1], [], []]` the key of `V` is `[1]`, which is below `joinEnc P = [1, 0, 0]`
+(see the example below). -/
+theorem rangeEnd_exact (P V : List Bytes) (n : Nat) (hn : 1 ≤ n) (hP : P.length = n)
+    (hV : n < V.length) (hmax : cmpB (V.getD n []) maxKey = .lt) :
+    (cmpB (joinEnc (trimEmpty P)) (joinEnc (trimEmpty V)) ≠ .gt ∧
+      cmpB (joinEnc (trimEmpty V)) (rangeEnd (joinEnc (trimEmpty P)) n) ≠ .gt) ↔ V.take n = P :=
+  Gsu.Ixkey.rangeEnd_exact P V n hn hP hV hmax
+
+example : 1 ≤ 2 ∧ ([[1], []] : List Bytes).length = 2 ∧ 2 < ([[1], [], [0xff, 3], []] : List Bytes).length ∧
+    cmpB (([[1], [], [0xff, 3], []] : List Bytes).getD 2 []) maxKey = .lt := by decide
+
+-- the untrimmed prefix key is above the key of a matching tuple whose remaining fields are empty
+example : cmpB (joinEnc [[1], []]) (joinEnc (trimEmpty [[1], [], []])) = .gt := by decide
+
+/-- `Decode1` returns the `i`-th field of a key (empty when there is no such field); holds for
+every tuple, including `[]` and `[[]]` whose key is empty. -/
+theorem decode1_spec (vs : List Bytes) (i : Nat) : decode1 (joinEnc vs) i = vs.getD i [] :=
+  Gsu.Ixkey.decode1_spec vs i
+
+example : decode1 (joinEnc [[1, 0], [], [0, 0, 2]]) 2 = [0, 0, 2] := by decide
+
+/-- `TruncFunc(spec1, spec2)` (specs without Fields2, `spec2` the first `nf2` fields of `spec1`)
+maps the untrimmed `spec1` key of a tuple to the untrimmed `spec2` key of its first `nf2` fields;
+a single-field spec stores the raw value. -/
+theorem truncFn_spec (vs : List Bytes) (nf1 nf2 : Nat) (hl : vs.length = nf1) (h1 : 1 ≤ nf2)
+    (h2 : nf2 ≤ nf1) :
+    truncFn nf1 nf2 (decide (nf1 > 1)) (decide (nf2 > 1))
+        (if nf1 > 1 then joinEnc vs else vs.getD 0 []) =
+      (if nf2 > 1 then joinEnc (vs.take nf2) else vs.getD 0 []) :=
+  Gsu.Ixkey.truncFn_spec vs nf1 nf2 hl h1 h2
+
+example : ([[1, 0], [], [3]] : List Bytes).length = 3 ∧ 1 ≤ 2 ∧ 2 ≤ 3 ∧
+    truncFn 3 2 true true (joinEnc [[1, 0], [], [3]]) = [1, 0, 1, 0, 0] := by decide
 
 /-- (G) the separator and Max constants the model uses are the ones in `ixkey.go` today -/
 theorem gen_constants : Gsu.Gen.Ixkey.cSep = sep ∧ Gsu.Gen.Ixkey.cMax = maxKey ∧ Gsu.Gen.Ixkey.cMin = [] :=
